@@ -415,6 +415,27 @@ func C15(p *core.Program, r *core.Report) {
 		r.Add("A3", "the article extractor receives the candidate titles", p.Pos(ec.Pos()), ok, fmt.Sprintf("%d Extract calls", len(calls)))
 	}
 
+	// ---- A5: Result.Title is what Parser.Title() answers (A1) and MarkupInfo.Title is what
+	// Parser.MarkupInfo() stores: the two are the same string only if MarkupInfo stores the
+	// Title() answer as it is
+	if mi := mustInl(p, r, "A5", "(*"+markupPkg+".Parser).MarkupInfo"); mi != nil {
+		n, bad := 0, []string{}
+		for _, a := range allocsOfAny(mi) {
+			nm := core.NamedOf(a.Type().(*types.Pointer).Elem())
+			if nm == nil || nm.Obj().Name() != "MarkupInfo" {
+				continue
+			}
+			for _, v := range fieldStores(a)["Title"] {
+				n++
+				call, ok := v.(*ssa.Call)
+				if !ok || !core.IsCallTo(call, "(*"+markupPkg+".Parser).Title") {
+					bad = append(bad, shortVal(c.Of(v)))
+				}
+			}
+		}
+		r.Add("A5", "MarkupInfo.Title is the unchanged answer of Parser.Title(), which Result.Title uses too", p.Pos(mi.Pos()), n >= 1 && len(bad) == 0, fmt.Sprintf("%d stores; other values: %v", n, bad))
+	}
+
 	// ---- A4
 	_ = c
 	if tg := mustInl(p, r, "A4", "(*"+webdocPkg+".Text).GenerateOutput"); tg != nil {
